@@ -43,6 +43,7 @@ type Obs struct {
 	Hung       bool
 	Trace      []int // source lines of the stack trace, outermost first
 	TraceFiles []string
+	TraceOffs  []int
 	Globals    string
 	CodecErr   string
 	Output     string
@@ -249,6 +250,7 @@ func OnVM(vm *ugo.VM, opt Options) (o Obs) {
 			for _, p := range re.StackTrace() {
 				o.Trace = append(o.Trace, p.Line)
 				o.TraceFiles = append(o.TraceFiles, p.Filename)
+				o.TraceOffs = append(o.TraceOffs, p.Offset)
 			}
 		} else {
 			var e *ugo.Error
